@@ -373,6 +373,17 @@ func check(prop, tier string, writeLock bool, filter string) int {
 		_ = os.RemoveAll(smtDir)
 		_ = os.MkdirAll(smtDir, 0o755)
 	}
+	for _, kf := range loadKnown() {
+		if kf.Kind != "known" || kf.Prop != prop {
+			continue
+		}
+		for _, o := range obls {
+			full := o.Func + "#" + o.Name
+			if kf.Obl == full || lockKey(kf.Obl) == lockKey(full) {
+				o.ExpectedToFail = true
+			}
+		}
+	}
 	dischargeAll(obls, smtDir, timeout, seed, 8, tier == "thorough")
 
 	known := loadKnown()
